@@ -397,15 +397,16 @@ def run_check(prop: str, analyse: Callable[[Report], None], tier: str,
     repo = Repo()
     rep = Report(prop, repo, tier)
     st: dict | None = None
+    st_errors: list[str] = []
     try:
         analyse(rep)
         rep.check_floors()
-        if tier == 'thorough' and selftest is not None:
+        if tier == 'thorough' and selftest is not None and not rep.errors:
             st = selftest(rep)
             for m in st.get('missed', []):
-                rep.error(f'self-validation: variant not detected: {m}')
+                st_errors.append(f'self-validation: variant not detected: {m}')
             for m in st.get('false_alarm', []):
-                rep.error(f'self-validation: repaired/neutral variant still reported: {m}')
+                st_errors.append(f'self-validation: neutral variant reported: {m}')
     except AnalysisError as err:
         rep.error(str(err))
     except Exception:
@@ -429,6 +430,8 @@ def run_check(prop: str, analyse: Callable[[Report], None], tier: str,
         hit = [f for f in rep.findings if f.ident() == ident]
         print(f'replay {ident}: ' + ('still reported' if hit else 'no longer reported'))
 
+    if st_errors and not unlisted:
+        rep.errors.extend(st_errors)
     wall = time.time() - t0
     write_evidence(rep, tier, seed, wall, known_hit, unlisted, st)
 
@@ -441,6 +444,13 @@ def run_check(prop: str, analyse: Callable[[Report], None], tier: str,
     for e in stale:
         print(f"note: listed finding no longer reported (repaired?): {e['rule']} "
               f"{e['construct']} [{e.get('key', '')}]")
+    if st is not None:
+        print(f"  self-validation: {st['detected']} breaking variant(s) detected, "
+              f"{st['neutral_clean']} neutral variant(s) clean, {len(st['skipped'])} skipped, "
+              f"{len(st['missed'])} missed, {len(st['false_alarm'])} false alarm(s)")
+    if st_errors and unlisted:
+        for m in st_errors:
+            print(f'note: {m}')
     if rep.errors:
         for m in rep.errors:
             print(f'ANALYSIS-ERROR property={prop} {m}')
